@@ -1058,7 +1058,11 @@ class Value(Term):
         :param want_inline_parens: bool, if True put parens around complex expressions that don't already have a grouper.
         :return: PythonText
         """
-        return PythonText(self.value.__repr__(), is_in_parens=False)
+        value_str = self.value.__repr__()
+        if want_inline_parens and value_str.startswith("-"):
+            # a negative constant is not an atom: -2 ** x means -(2 ** x)
+            return PythonText("(" + value_str + ")", is_in_parens=True)
+        return PythonText(value_str, is_in_parens=False)
 
     # don't collect -5 as a complex expression
     def __neg__(self):
@@ -1375,8 +1379,13 @@ class Expression(Term):
             sub_0 = self.args[0].to_python(want_inline_parens=False)
             if self.inline:
                 if sub_0.is_in_parens:
-                    return PythonText(self.op + str(sub_0), is_in_parens=False)
-                return PythonText(self.op + "(" + str(sub_0) + ")", is_in_parens=False)
+                    result = self.op + str(sub_0)
+                else:
+                    result = self.op + "(" + str(sub_0) + ")"
+                if want_inline_parens:
+                    # a prefix operator binds less tightly than **: -(x) ** 2 means -(x ** 2)
+                    return PythonText("(" + result + ")", is_in_parens=True)
+                return PythonText(result, is_in_parens=False)
             if self.method:
                 if sub_0.is_in_parens or isinstance(self.args[0], ColumnReference):
                     return PythonText(
